@@ -1,0 +1,12 @@
+//go:build !verif
+
+package entry
+
+import (
+	"berty.tech/go-ipfs-log/iface"
+	cid "github.com/ipfs/go-cid"
+)
+
+// verifFetch is a no-op unless the package is built with -tags verif
+// (see verif_on.go: observation and yield points for schedule-controlled tests).
+func verifFetch(*Fetcher, string, cid.Cid, processQueue, []iface.IPFSLogEntry, int, bool) {}
